@@ -44,10 +44,9 @@ def make_case(prog, slots, style, newline, lseed):
                 kinds=gg.kinds(prog, eff), tree=gg.expect(prog, eff))
 
 
-def gen_chunk(args):
+def gen_cases(seed, lo, hi, hist):
     """deterministic chunk of generated cases: programs seed*.. + index"""
-    seed, lo, hi, nlay = args
-    out, hist = [], {}
+    out = []
     for i in range(lo, hi):
         rng = random.Random(seed * 7919 + i)
         prog = gg.gen_program(rng, 6, 60, hist)
@@ -61,7 +60,54 @@ def gen_chunk(args):
             c = make_case(prog, slots, style, nl, seed * 31 + i * 7 + k)
             c["pid"] = i
             out.append(c)
-    return out, hist
+    return out
+
+
+def lite(c):
+    return {k: c[k] for k in ("prog", "slots", "style", "newline", "text", "judge_cmd", "pid")}
+
+
+def digest_cases(cases, dump, judge, ksel_seed):
+    """evaluates a list of cases (in this process: the binaries are run on the whole list) and condenses the result"""
+    res = evaluate(cases, dump, judge, jobs=1)
+    npairs, bad = layout_groups(cases, res)
+    st = dict(cases=len(cases), tokens=0, max_tokens=0, comments=0, lay_pairs=npairs)
+    distinct, fails_, mism, kc = set(), [], [], []
+    krng = random.Random(ksel_seed)
+    for c, v in zip(cases, res):
+        nt = c["kinds"][0]
+        st["tokens"] += nt
+        st["max_tokens"] = max(st["max_tokens"], nt)
+        st["comments"] += sum(len(x) for x in c["slots"])
+        if nt >= 12:
+            distinct.add(hashlib.sha256(c["judge_cmd"].encode()).digest()[:12])
+        if not (v["tokens_ok"] and v["tree_ok"]):
+            if len(fails_) < 20:
+                fails_.append((lite(c), dict(tokens_ok=v["tokens_ok"], tree_ok=v["tree_ok"])))
+            st["fails"] = st.get("fails", 0) + 1
+        elif judge and not v["judge_ok"]:
+            if len(mism) < 5:
+                mism.append((lite(c), dict(judge=v["judge"], real_tree=v["real_tree"])))
+            st["mism"] = st.get("mism", 0) + 1
+        elif judge and nt <= 60 and len(kc) < 12 and krng.random() < 0.2:
+            kc.append((c["judge_cmd"], v["judge"]))
+    lay = [(lite(cases[i]), lite(cases[j]), res[i]["real_tree"], res[j]["real_tree"]) for i, j in bad[:2]]
+    st["lay_bad"] = len(bad)
+    sample = None
+    if cases:
+        c = cases[krng.randrange(len(cases))]
+        sample = dict(text=c["text"], style=c["style"], newline=c["newline"], slots_nonempty=sum(1 for x in c["slots"] if x),
+                      judge_cmd=c["judge_cmd"][:400])
+    return dict(st=st, distinct=distinct, fails=fails_, mism=mism, kc=kc, lay=lay, sample=sample)
+
+
+def work_chunk(args):
+    seed, lo, hi, dump, judge = args
+    hist = {}
+    cases = gen_cases(seed, lo, hi, hist)
+    d = digest_cases(cases, dump, judge, seed * 13 + lo)
+    d["hist"] = hist
+    return d
 
 
 def gap_family(seed, nprogs):
@@ -161,11 +207,11 @@ def real_kinds(lex_line):
     return out
 
 
-def evaluate(cases, dump, judge):
+def evaluate(cases, dump, judge, jobs=common.JOBS):
     """runs the implementation and the extracted judge; returns per-case verdicts"""
-    lex = common.run_lines(dump, [c["lex_cmd"] for c in cases])
-    par = common.run_lines(dump, [c["parse_cmd"] for c in cases])
-    jud = common.run_lines(judge, [c["judge_cmd"] for c in cases]) if judge else [None] * len(cases)
+    both = common.run_lines(dump, [c["lex_cmd"] for c in cases] + [c["parse_cmd"] for c in cases], jobs=jobs)
+    lex, par = both[:len(cases)], both[len(cases):]
+    jud = common.run_lines(judge, [c["judge_cmd"] for c in cases], jobs=jobs) if judge else [None] * len(cases)
     res = []
     for c, l, p, j in zip(cases, lex, par, jud):
         rk = real_kinds(l)
@@ -335,84 +381,89 @@ def run(ctx):
         return
     dump = os.path.join(hdir, "dump")
     nprog = 50000 if ctx.thorough() else 800
-    nlay = 3
     t_gen = time.time()
-    cases = corpus_cases()
-    ncorpus = len(cases)
+    first = corpus_cases()
+    ncorpus = len(first)
     fam = gap_family(ctx.seed, 12 if ctx.thorough() else 4)
-    cases += fam
+    first += fam
     hist = {}
-    stats = dict(cases=0, tokens=0, max_tokens=0, comments=0, stmts_max=0)
-    fails_all, mism_all, lay_bad, lay_pairs = [], [], [], 0
+    stats = dict(cases=0, tokens=0, max_tokens=0, comments=0)
+    fails_all, mism_all, lay_bad = [], [], []
+    nfails = nmism = nlaybad = lay_pairs = 0
     distinct = set()
     samples = []
     kcases = []
-    chunk = 250
-    jobs = [(ctx.seed, lo, min(nprog, lo + chunk), nlay) for lo in range(0, nprog, chunk)]
-    batch = 16
-    first = True
+    kmax = 240 if ctx.thorough() else 96
+    chunk = 125 if ctx.thorough() else 50
+    jobs = [(ctx.seed, lo, min(nprog, lo + chunk), dump, judge) for lo in range(0, nprog, chunk)]
+
+    def absorb(d):
+        nonlocal nfails, nmism, nlaybad, lay_pairs
+        st = d["st"]
+        stats["cases"] += st["cases"]
+        stats["tokens"] += st["tokens"]
+        stats["comments"] += st["comments"]
+        stats["max_tokens"] = max(stats["max_tokens"], st["max_tokens"])
+        nfails += st.get("fails", 0)
+        nmism += st.get("mism", 0)
+        nlaybad += st["lay_bad"]
+        lay_pairs += st["lay_pairs"]
+        distinct.update(d["distinct"])
+        if len(fails_all) < 40:
+            fails_all.extend(d["fails"])
+        if len(mism_all) < 10:
+            mism_all.extend(d["mism"])
+        if len(lay_bad) < 4:
+            lay_bad.extend(d["lay"])
+        for k, v in d.get("hist", {}).items():
+            hist[k] = hist.get(k, 0) + v
+        for c in d["kc"]:
+            if len(kcases) < kmax:
+                kcases.append((enc.nums(c[0]), enc.nums(c[1])))
+        if len(samples) < 3 and d["sample"]:
+            samples.append(d["sample"])
+
+    absorb(digest_cases(first, dump, judge, ctx.seed))
     with ProcessPoolExecutor(common.JOBS) as ex:
-        for b in range(0, len(jobs), batch):
-            gen = list(ex.map(gen_chunk, jobs[b:b + batch]))
-            cur = cases if first else []
-            first = False
-            for cs_, h in gen:
-                cur += cs_
-                for k, v in h.items():
-                    hist[k] = hist.get(k, 0) + v
-            res = evaluate(cur, dump, judge)
-            npairs, bad = layout_groups(cur, res)
-            lay_pairs += npairs
-            for i, j in bad:
-                lay_bad.append((cur[i], cur[j], res[i], res[j]))
-            for c, v in zip(cur, res):
-                stats["cases"] += 1
-                nt = c["kinds"][0]
-                stats["tokens"] += nt
-                stats["max_tokens"] = max(stats["max_tokens"], nt)
-                stats["comments"] += sum(len(x) for x in c["slots"])
-                if nt >= 12:
-                    distinct.add(hashlib.sha256(c["judge_cmd"].encode()).digest()[:12])
-                if not (v["tokens_ok"] and v["tree_ok"]):
-                    fails_all.append((c, v))
-                elif judge and not v["judge_ok"]:
-                    mism_all.append((c, v))
-                elif judge and nt <= 60 and len(kcases) < (240 if ctx.thorough() else 96) and ctx.rng.random() < 0.2:
-                    kcases.append((enc.nums(c["judge_cmd"]), enc.nums(v["judge"])))
-            if len(samples) < 3 and cur:
-                c = cur[ctx.rng.randrange(len(cur))]
-                samples.append(dict(text=c["text"], style=c["style"], newline=c["newline"], slots_nonempty=sum(1 for x in c["slots"] if x),
-                                    judge_cmd=c["judge_cmd"][:400]))
+        for d in ex.map(work_chunk, jobs):
+            absorb(d)
     ctx.cov["gen_eval_wall_s"] = round(time.time() - t_gen, 1)
     # ---- oracle violations (implementation alone) ----
     reported = 0
     for c, v in sorted(fails_all, key=lambda cv: len(cv[0]["text"]))[:2]:
-        prog, slots = shrink(c["prog"], c["slots"], dump, c["style"], c["newline"])
+        base = c["slots"]
+        if c["newline"] == "\r\n":      # stored slots are the effective ones; make_case adds the CR again
+            base = [[x[:-1] for x in g] for g in base]
+        prog, slots = shrink(c["prog"], base, dump, c["style"], c["newline"])
         m = make_case(prog, slots, c["style"], c["newline"], 7)
         mv = evaluate([m], dump, None)[0]
         if mv["tokens_ok"] and mv["tree_ok"]:
-            m, mv = c, v
+            m = make_case(c["prog"], base, c["style"], c["newline"], 7)
+            m["text"] = c["text"]
+            cps = " ".join(str(ord(ch)) for ch in c["text"])
+            m["lex_cmd"], m["parse_cmd"] = "1 " + cps, "7 " + cps
+            mv = evaluate([m], dump, None)[0]
         r = describe(m, mv)
         r["original_text"] = c["text"]
         ctx.violation(r)
         reported += 1
-    for a, b, va, vb in lay_bad[:1]:
+    for a, b, ta, tb in lay_bad[:1]:
         if reported:
             break
         ctx.violation(dict(kind="oracle", property="C04", what="two layouts of the same abstract program (same tokens, same comments) give different trees",
-                           text=a["text"], text2=b["text"], prog=a["prog"], slots=a["slots"], real_tree=va["real_tree"], real_tree2=vb["real_tree"]))
+                           text=a["text"], text2=b["text"], prog=a["prog"], slots=a["slots"], real_tree=ta, real_tree2=tb))
         reported += 1
     # ---- correspondence ----
     kfail = []
     if judge and kcases:
         kfail = common.kernel_judge("C04", kcases)
     if not reported:
-        if mism_all or kfail:
+        if nmism or kfail:
             if mism_all:
                 c, v = mism_all[0]
                 rep = dict(kind="correspondence", property="C04", what="the extracted judge's `flatten p ++ expected p` differs from the real tokens/tree "
                            "although the python re-computation agrees with the implementation", judge_cmd=c["judge_cmd"], judge=v["judge"],
-                           real_tree=v["real_tree"], text=c["text"], mismatches=len(mism_all))
+                           real_tree=v["real_tree"], text=c["text"], mismatches=nmism)
             else:
                 rep = dict(kind="correspondence", property="C04", what="kernel judge (coqc vm_compute) disagrees with the extracted judge",
                            judge_cmd=" ".join(map(str, kcases[kfail[0]][0])))
@@ -433,11 +484,11 @@ def run(ctx):
         "input_histogram": dict(sorted(hist.items())),
         "tokens_total": stats["tokens"], "tokens_max": stats["max_tokens"], "comment_tokens_total": stats["comments"],
         "gap_family_cases": len(fam), "corpus_cases": ncorpus,
-        "layout_pairs_compared": lay_pairs, "layout_pair_differences": len(lay_bad),
-        "oracle_failures": len(fails_all),
+        "layout_pairs_compared": lay_pairs, "layout_pair_differences": nlaybad,
+        "oracle_failures": nfails,
         "traces_validated_against_impl": stats["cases"] if judge else 0,
         "kernel_judge_cases": len(kcases),
-        "correspondence_mismatches": len(mism_all) + len(kfail),
+        "correspondence_mismatches": nmism + len(kfail),
         "samples": samples,
         "judge_encoding": "see the header of coq/theories/Judge/RunGrammar.v",
     })
